@@ -104,7 +104,9 @@ zPivotGrowth(int ncols, SuperMatrix *A, int *perm_c,
 		maxuj = SUPERLU_MAX( maxuj, z_abs1( &Uval[i]) );
 	    
 	    /* Supernode */
-	    for (i = 0; i < nz_in_U; ++i)
+	    /* (a supernode left by a singular factorization can have fewer rows than
+	       columns: only the rows it has are stored) */
+	    for (i = 0; i < nz_in_U && i < nsupr; ++i)
 		maxuj = SUPERLU_MAX( maxuj, z_abs1( &luval[i]) );
 
 	    ++nz_in_U;
